@@ -1469,7 +1469,21 @@ fn layouts_and_forms<F: Float>(c: &mut Case) -> Outcome {
     let mut big = Array2::<F>::from_elem((2 * n + 1, p + 2), F::cast(7.5));
     big.slice_mut(s![1..;2, 1..p + 1]).assign(&x);
     let win = big.slice(s![1..;2, 1..p + 1]);
+    // rows stored back to front behind a negative row stride: contiguous rows, so all three indices
+    let back = Array2::<F>::from_shape_fn((n, p), |(i, j)| x[[n - 1 - i, j]]);
+    let rev = back.slice(s![..;-1, ..]);
     let mut evals = 6;
+    for ix in [Ix::Linear, Ix::Kd, Ix::Ball] {
+        evals += 2;
+        match run_dbscan(&rev, m, ix, mp, eps) {
+            Ok(l) => ensure!(l == base, "C08/layout/dbscan-labels-differ", {"layout": "rows-reversed", "index": format!("{ix:?}"), "n": n, "p": p, "data": data_json(&x)}),
+            Err(w) => bail!("C08/layout/dbscan-panic-or-error", {"layout": "rows-reversed", "index": format!("{ix:?}"), "why": w}),
+        }
+        match run_optics(rev.view(), m, ix, mp, Some(eps)) {
+            Ok(o) => ensure!(o == obase, "C08/layout/optics-analysis-differs", {"layout": "rows-reversed", "index": format!("{ix:?}"), "n": n, "p": p, "data": data_json(&x)}),
+            Err(w) => bail!("C08/layout/optics-panic-or-error", {"layout": "rows-reversed", "index": format!("{ix:?}"), "why": w}),
+        }
+    }
     // rows of these layouts are not contiguous: the k-d tree documents a panic for that
     // ("views should be contiguous"), so only the other two indices are in the domain
     let idxs: &[Ix] = &[Ix::Linear, Ix::Ball];
